@@ -13,10 +13,7 @@ CATS = {
 
 def known_class(j, cat, text):
     f = j.fmt
-    if f.codec == 0x21 and cat in ("write", "frames", "eof", "partition", "roundtrip") and (j.n % 2 == 1 or any(p % 2 == 1 for p in j.parts)):
-        # exactly the class of KF-VOX-ODD: a write call with an odd item count on a VOX handle (mono: items = frames) -- it returns count + 1 and stores one
-        # extra (zero) sample, which shows as the write count, the frame count / end of file, the split-dependent bytes; a job of even calls is never waived
-        return "KF-VOX-ODD"
+    # KF-VOX-ODD (OKI/VOX, a write call with an odd item count returned count + 1 and stored a pad sample) is repaired: no class is left for it
     if f.major == 0x04 and f.codec in (0x40, 0x41, 0x42) and cat in ("frames", "eof"):
         return "KF-RAW-DWVW-FRAMES"      # headerless: the frame count is an estimate F >= N (more frames reported / delivered than written); the first N are exact
     if f.major in (0x01, 0x13) and f.codec == 0x20 and cat in ("frames", "eof", "snapshot"):
